@@ -173,6 +173,9 @@ def toidentifier(value):
             # infinity, nan
             intvalue = None
         if value == intvalue and intvalue.bit_length() <= 64:
+            if intvalue == 0 and math.copysign(1, value) < 0:
+                # -0.0 and 0.0 are different constants
+                return "fneg0"
             return "f" + toidentifier(intvalue)
         if math.isinf(value):
             return "posinf" if value > 0 else "neginf"
@@ -189,6 +192,9 @@ def toidentifier(value):
             # infinity, nan
             intvalue = None
         if value == intvalue and intvalue.bit_length() <= value.dtype.itemsize * 8:
+            if intvalue == 0 and numpy.signbit(value):
+                # -0.0 and 0.0 are different constants
+                return value.dtype.kind + "neg0"
             return value.dtype.kind + toidentifier(intvalue)
         if numpy.isposinf(value):
             return "posinf"
